@@ -29,7 +29,9 @@ REQUIRED = {'node-dense': 50, 'get': 50, 'full': 50, 'sum': 50, 'mean': 50,
     'get_many': 50}
 ASSUMPTIONS = ['numpy longdouble (64-bit mantissa) contraction is the dense '
     'reference; tolerance 10*(sum ranks + d)*2^-52*absbound',
-    'integer mode: exact Python-int contraction, bit equality']
+    'integer mode: exact Python-int contraction, bit equality',
+    'absolute floor 1e-300 on every tolerance (subnormal results have no '
+    'relative accuracy; seen at tree depth 6 in the thorough tier)']
 COVER = ['act_one.copy', 'act_one.get', 'act_one.get_many', 'act_one.get_and_grad', 'act_one.interface', 'act_one.mean', 'act_one.norm', 'act_one.sum', 'act_two.accuracy', 'act_two.add', 'act_two.mul', 'act_two.mul_scalar', 'act_two.outer', 'act_two.sub', 'act_many.outer_many', 'transformation.full', 'props.erank', 'props.ranks', 'props.shape', 'props.size', 'data.accuracy_on_data']
 SHARDS = {'quick': 12, 'thorough': 16}
 
@@ -405,6 +407,9 @@ def run_manysum(case, ctx):
 
 
 def run_case(case, ctx):
+    # values below 1e-300 are subnormal or nearly so: their relative accuracy
+    # is gone by construction and a tolerance c eps |x| underflows to 0
+    ctx.abs_floor = 1e-300
     if case.get('kind') == 'manysum':
         return run_manysum(case, ctx)
     if case.get('kind') == 'shared':
